@@ -172,6 +172,37 @@ def parse_cases(rng, tier):
             exp = du(Y, 0, DDD, h, mi, s)
         cases.append(Case(["dparse " + enc(alt), "dparse " + enc(des)], ["parse", "alt", form],
                           kind="alt", text=alt, des=des, expect=exp))
+    # reduced and decimal times in the date-time-like spelling (hh:mm, hh, hh:mm,n, hh,n, hh:mm:ss,n)
+    for _ in range(m // 3):
+        Y, M, D = rng.randint(0, 9999), rng.randint(0, 99), rng.randint(0, 99)
+        h, mi, sec = rng.randint(0, 99), rng.randint(0, 99), rng.randint(0, 99)
+        ext = rng.random() < 0.5
+        frac = rng.choice(["5", "25", "75", "125", "51"])
+        fq = Fraction("0." + frac)
+        dpart = ("P%04d-%02d-%02d" if ext else "P%04d%02d%02d") % (Y, M, D)
+        sep = rng.choice([",", "."])
+        shape = rng.choice(["hm", "h", "hm,n", "h,n", "hms,n"])
+        c = ":" if ext else ""
+        if shape == "hm":
+            tpart, comp = "%02d%s%02d" % (h, c, mi), (h, mi, 0)
+        elif shape == "h":
+            tpart, comp = "%02d" % h, (h, 0, 0)
+        elif shape == "hm,n":
+            tpart, comp = "%02d%s%02d%s%s" % (h, c, mi, sep, frac), (h, mi + fq, 0)
+        elif shape == "h,n":
+            tpart, comp = "%02d%s%s" % (h, sep, frac), (h + fq, 0, 0)
+        else:
+            tpart, comp = "%02d%s%02d%s%02d%s%s" % (h, c, mi, c, sec, sep, frac), (h, mi, sec + fq)
+        alt = dpart + "T" + tpart
+
+        def num(x):
+            x = Fraction(x)
+            return str(x.numerator) if x.denominator == 1 else ("%s" % float(x)).replace(".", ",")
+        des = "P%dY%dM%dDT" % (Y, M, D) + "".join("%s%s" % (num(v), u) for v, u in zip(comp, "HMS") if v != 0)
+        des = des.rstrip("T") if des.endswith("T") else des
+        exp = du(Y, M, D, *comp)
+        cases.append(Case(["dparse " + enc(alt), "dparse " + enc(des)], ["parse", "alt", "reduced:" + shape],
+                          kind="alt", text=alt, des=des, expect=exp))
     return cases
 
 
